@@ -49,6 +49,12 @@ func firstPackets(thorough bool) []firstPacket {
 		firstPacket{desc: "CONNECT with fixed-header flags 1", raw: append([]byte{0x11}, connectBytes("MQTT", 4, 2, 30, []byte("x"))[1:]...), expect: "close"},
 		// the broker waits for the announced body; it must give up at the connect timeout at the latest
 		firstPacket{desc: "CONNECT announcing 16 MiB and sending nothing", raw: []byte{0x10, 0x80, 0x80, 0x80, 0x08}, expect: "pending"},
+		// bytes behind the last field, inside the remaining length
+		firstPacket{desc: "CONNECT with three surplus bytes inside its remaining length", raw: func() []byte {
+			b := connectBytes("MQTT", 4, 2, 30, []byte("x"))
+			b[1] += 3
+			return append(b, 0xde, 0xad, 0x01)
+		}(), expect: "close"},
 		// a remaining-length field of five bytes is no MQTT 3.1.1 packet, whatever it announces
 		firstPacket{desc: "CONNECT with a five-byte length field announcing 512 MiB", raw: []byte{0x10, 0x80, 0x80, 0x80, 0x80, 0x02}, expect: "close"},
 		firstPacket{desc: "CONNECT with a five-byte length field announcing 12 bytes", raw: append([]byte{0x10, 0x8c, 0x80, 0x80, 0x80, 0x00}, connectBytes("MQTT", 4, 2, 30, []byte("x"))[2:]...), expect: "close"})
@@ -81,10 +87,14 @@ func firstPackets(thorough bool) []firstPacket {
 		{0x0a, "will QoS 1 without will flag", "close", false},
 		{0x22, "will retain without will flag", "close", false},
 		{0x1e, "will QoS 3", "close", true},
+		{0x42, "password flag without user-name flag", "close", false},
 		{0x06, "will flag, QoS 0", "accept", true},
 		{0x36, "will flag, QoS 2, retain", "accept", true},
 	} {
 		fields := [][]byte{cid}
+		if fl.f&0x40 != 0 {
+			fields = append(fields, []byte("pw"))
+		}
 		o := ConnectOpts{ClientID: "c1", Clean: true, KeepAlive: 30}
 		if fl.will {
 			fields = append(fields, []byte("w/t"), []byte("gone"))
@@ -261,11 +271,17 @@ func c11victim(c *core.Ctx, comps map[string]bool) {
 		return Action{Kind: "connect", Client: "E", Opts: ConnectOpts{ClientID: "o", Clean: clean, KeepAlive: 60, User: "evil", Pass: "x", Will: w}}
 	}
 	owner := Action{Kind: "connect", Client: "O", Opts: ConnectOpts{ClientID: "o", Clean: false, KeepAlive: 600}}
+	// a user whose credentials the authenticator knows: right password, wrong password, none -
+	// on fresh connections, in any order (what was accepted once does not vouch for the next CONNECT)
+	admin := func(client, pass string) Action {
+		return Action{Kind: "connect", Client: client, Opts: ConnectOpts{ClientID: "adm-" + client, Clean: true, KeepAlive: 600, User: "admin", Pass: pass}}
+	}
 	ops := []Action{
 		owner, sub("O", 1, "t", 1), {Kind: "disconnect", Client: "O"}, {Kind: "cut", Client: "O"},
 		evil(true, nil), evil(false, &Will{"w/evil", "planted", 1, false}), evil(false, nil),
 		pub("W", "t", 1, 9, "probe"),
 	}
+	credOps := []Action{admin("G", "secret"), admin("H", "wrong"), admin("I", ""), {Kind: "disconnect", Client: "G"}, {Kind: "cut", Client: "G"}}
 	comps2 := map[string]bool{}
 	for k := range comps {
 		comps2[k] = true
@@ -279,18 +295,27 @@ func c11victim(c *core.Ctx, comps map[string]bool) {
 		Prefix: []Action{{Kind: "connect", Client: "W", Opts: ConnectOpts{ClientID: "w", Clean: true, KeepAlive: 65535}}, sub("W", 2, "#", 1)},
 		Pre: func(hist []Action, a Action) bool {
 			// the rejected connection never becomes a live one: it may use the owner's id while the owner is online
-			if a.Client == "E" {
+			refused := func(x Action) bool {
+				return x.Client == "E" || x.Client == "H" || x.Client == "I"
+			}
+			if refused(a) {
 				return true
 			}
 			var h2 []Action
 			for _, x := range hist {
-				if x.Client != "E" {
+				if !refused(x) {
 					h2 = append(h2, x)
 				}
 			}
 			return precond(h2, a)
 		}}
 	spec.Search(c)
+	if c.HasViolation() || c.Expired() {
+		return
+	}
+	cred := &HistSpec{Name: "credentials-history", Cfg: Config{Authenticator: SelectiveAuth}, Ops: credOps, Depth: 5, Dedup: false, Comps: comps2, CrashIsViolation: true,
+		Prefix: spec.Prefix, Pre: spec.Pre}
+	cred.Search(c)
 }
 
 func fpClass(fp firstPacket) string {
